@@ -421,3 +421,21 @@ def distribution(cases, results):
             k = c['cfg']['t'] + (':' + c['cfg']['window'] if c['cfg']['t'] == 'env' else '')
         d[k] = d.get(k, 0) + 1
     return d
+
+
+# ================================================= translator tie of the index bookkeeping =============================
+# coq/gen/StimIdxGen.v is regenerated from $PSIAUDIO_REPO/psiaudio/stim.py on every run (translate/pystim2coq.py: fail-closed
+# ast translator + self-test against the real functions / objects); coq/Stim/ProofsTie.v proves the regenerated definitions equal
+# to the model definitions of coq/Stim/Model.v, and Props/C09.v restates the main theorems over them (C09_source_*).
+def translate(repo):
+    from translate import pystim2coq
+    return pystim2coq.hook(repo)
+
+
+TRUSTED = TRUSTED + ['translate/pystim2coq.py (fail-closed ast translator of the index bookkeeping of envelope, GateFactory.__init__ / next / '
+                     'n_samples_remaining / n_samples / is_complete, EnvelopeFactory.next, FixedWaveform.next / queries, '
+                     'SquareWaveFactory.next, _sam_envelope to coq/gen/StimIdxGen.v; its IR is run by a small interpreter against the real '
+                     'code on every run); ' + 'pinned, not translated (a change of their text breaks the tie): the float conversions '
+                     'int(round(t * fs)) / int(delay * fs), the rise_time-is-None branch, the window look-up, the SAM formula, `transform`, '
+                     'the input factory\'s next / reset calls, env * token; np.zeros / np.ones / np.clip / np.concatenate / basic slicing '
+                     'as Stim/Model.v and Common/PySlice.v model them']
